@@ -10,6 +10,7 @@ import world
 import worldscen as ws
 import gen_rules
 import confshape
+import conffam
 
 R = '@R@'
 
@@ -290,6 +291,82 @@ def conf_requests(rng, tier, texts):
         reqs.append(('conf', bytes(t), HOME))
     return reqs
 # --------------------------------------------------------------------------
+# configuration families (tools/conffam.py): macro-name relations, integer literals, path-list shapes of maildir blocks
+# --------------------------------------------------------------------------
+
+def _recorded(pairs):
+    """What the unchanged program does with the shapes the manual does not settle: {path list / body / companion block: verdicts}."""
+    out = {}
+    for name, verdict in pairs:
+        _, lname, form, body, comp = name.split(':')
+        k = '%s, %s, %s' % (lname, 'with reject' if body != 'no-reject' else 'without reject', comp)
+        out.setdefault(k, set()).add(verdict)
+    return {k: '/'.join(sorted(v)) for k, v in sorted(out.items())}
+
+
+def family_unit_stage(rep, h, henv, dconf, tier, rng):
+    """The three families through the real parser (`conf` of h_parse), judged by the manuals' oracle (a deviation is a failing input:
+    configuration text, -D options, what is wrong) and compared with `M conf` (a disagreement with the parser model is a broken
+    correspondence, reported by dconf.conclude when no failing input explains it)."""
+    line = vlib.Differential.line
+    mcases = conffam.macro_unit_cases(tier, rng)
+    icases = conffam.int_unit_cases(tier)
+    scases = conffam.pathlist_shapes('/r')
+    ireqs = [conffam.conf_request(c[4]) for c in icases]
+    sreqs = [conffam.conf_request(c[1]) for c in scases]
+    reqs = list(dict.fromkeys([c[2] for c in mcases] + [c[3] for c in mcases if c[3] is not None] + ireqs + sreqs))
+    lines = [line(r) for r in reqs]
+    impl = dict(zip(reqs, vlib.run_batch([h], lines, henv)))
+    model = dict(zip(reqs, vlib.run_batch([vlib.driver_path()], ['M ' + l for l in lines])))
+    dconf.evals += len(reqs)
+    for r in reqs:
+        if impl[r] != model[r] and not impl[r].startswith('FAULT'):
+            dconf.corr_mismatch.append((r, impl[r], model[r], None))
+    stat = {'requests': len(reqs), 'model_disagreements': sum(1 for r in reqs if impl[r] != model[r])}
+    bad = {'macro-names': [], 'integer-literals': [], 'path-lists': []}
+    for c in mcases:
+        what = conffam.judge_macro_unit(c, impl[c[2]], impl.get(c[3]))
+        if what:
+            bad['macro-names'].append({'kind': 'macro-names:' + c[1], 'config': c[5], '-D options': ['%s=%s' % d for d in c[0].dash_d], 'scenario': c[0].describe(),
+                                       'expected': c[4], 'what': [what], 'implementation': impl[c[2]][:400], 'model': model[c[2]][:400]})
+    for c, r in zip(icases, ireqs):
+        what = conffam.judge_int_unit(c, impl[r])
+        if what:
+            bad['integer-literals'].append({'kind': 'integer-literal', 'config': c[4][:300], 'literal': c[0][:120], 'unit': c[1],
+                                            'expected': 'rejected' if c[5] is None else 'age %d seconds' % c[5], 'what': [what],
+                                            'implementation': impl[r][:400], 'model': model[r][:400]})
+    for c, r in zip(scases, sreqs):
+        what = conffam.judge_shape_unit(c, impl[r])
+        if what:
+            bad['path-lists'].append({'kind': c[0], 'config': c[1], 'expected': c[2], 'what': [what], 'implementation': impl[r][:400], 'model': model[r][:400]})
+    for fam, items in bad.items():
+        for it in conffam.pick(items):
+            rep.finding('unlisted', dict(it, family=fam, level='real parser (harness h_parse, op conf)', deviations_in_this_family=len(items)))
+    exp = lambda cases, k: {e: sum(1 for c in cases if c[k] == e) for e in sorted(set(c[k] for c in cases))}
+    stat.update({
+        'macro_name_cases': len(mcases), 'macro_name_expected': exp(mcases, 4), 'macro_name_groups': ['/'.join(repr(n) if n == '' else n for n in g) for g in conffam.NAME_GROUPS],
+        'macro_name_positions': [p[0] for p in conffam.UPOS],
+        'integer_cases': len(icases), 'integer_accepted': sum(1 for c in icases if c[5] is not None), 'integer_literals': len(conffam.int_literals(tier)),
+        'integer_unit_lexemes': conffam.unit_lexemes(tier),
+        'path_list_cases': len(scases), 'path_list_expected': exp(scases, 2),
+        'path_list_recorded': _recorded([(c[0], impl[r].split(' ')[0]) for c, r in zip(scases, sreqs) if c[2] == 'either']),
+        'deviations': {k: len(v) for k, v in bad.items()},
+    })
+    return stat
+
+
+def family_process_cases(tier):
+    """(judge function, case) for the process level: the real binary with -n, -d, a real run, with and without `-`."""
+    out = [(conffam.judge_macro_process, c) for c in conffam.macro_process_cases(tier)]
+    # C15 runs the whole age family at process level; here the part that is about rejection as a whole
+    out += [(conffam.judge_int_process, c) for c in conffam.int_process_cases(tier) if tier != 'quick' or c[1] in ('seconds', 'hours')]
+    shapes = conffam.pathlist_shapes()
+    if tier == 'quick':
+        shapes = [s for s in shapes if s[0].endswith(':alone') or s[0].endswith(':stdin-block-after')]
+    out += [(conffam.judge_shape_process, c) for c in shapes]
+    return out
+
+# --------------------------------------------------------------------------
 # The macro context matrix: every kind of macro reference in every string position of the grammar.
 #
 # mdsort.conf(5): "Macros ... can later be interpolated inside strings", "${macro} where macro is a defined macro", "the following
@@ -500,6 +577,9 @@ def run(rep):
         texts.append(bytes(t).decode('latin-1'))
     for _ in range(n // 3):
         texts.append(bytes(rng.randrange(256) for _ in range(rng.randrange(0, 60))).decode('latin-1'))
+    # the integer-literal family at token level too (value, consumed bytes and diagnostics of every INT / unit token)
+    ilit = conffam.int_unit_cases(rep.tier)
+    texts += [c[4] for c in ilit[::max(1, len(ilit) // (400 if rep.tier == 'quick' else 20000))]]
     recs = lex_records(h, henv, texts)
     dreq, idx = [], []
     nfault = 0
@@ -542,6 +622,8 @@ def run(rep):
     conf_err = sum(1 for x in cimpl if x.startswith('ERR'))
     conf_lines = len(set(x for x in cimpl if x.startswith('ERR')))
     conf_nodes = sum(len(re.findall(r' (?:block|and|or|neg|match|attachment|attblock) ', x)) for x in cimpl if x.startswith('OK'))
+    # 1b'. configuration families at the level of the real parser: macro-name relations, integer literals, path-list shapes
+    fam_stat = family_unit_stage(rep, h, henv, dconf, rep.tier, rng)
     # 1c. the written form (Spec.printBlocks) of every accepted configuration that is in Spec.ConfOK goes through both parsers
     # again: the real parser must accept it and build the same trees (all nodes on line 1: C14_accepts_grammar_partial)
     okreqs = [r_ for r_, im_ in zip(creqs, cimpl) if im_.startswith('OK')]
@@ -636,9 +718,20 @@ def run(rep):
     tot = [t for t in texts[len(EDITS) + 1 + n:]][: (150 if rep.tier == 'quick' else 20000)]
     tot += ['# only a comment', 'maildir "%s/src" {\n\tmatch all flag new\n}\n# trailing comment without newline' % R, '#', '"', '/', 'x', 'x =', 'maildir']
     cells = [(p, k) for p in POSITIONS for k in KINDS]
+    fam = family_process_cases(rep.tier)
     with cf.ThreadPoolExecutor(vlib.NCPU) as ex:
         matrix = list(ex.map(cell, cells))
+        famres = list(ex.map(lambda jc: jc[0](tools, jc[1], rep.tier), fam))
         results = list(ex.map(accept, acc)) + list(ex.map(reject, rej)) + list(ex.map(total, tot)) + matrix
+    nfam = {}
+    for r in famres:
+        if r['problems']:
+            nfam.setdefault(r['kind'].split(':')[1], []).append(r)
+    for k, items in nfam.items():
+        for r in conffam.pick(items, key=lambda it: re.sub(r'^.*?\]: |^.*?: ', '', it['problems'][0])[:30]):
+            rep.finding('unlisted', {'kind': r['kind'], 'config': r['config'], 'arguments': r.get('arguments', []), 'expected': r['expected'],
+                                     'what': r['problems'][:4], 'level': 'real binary (mdsort under the shim)', 'deviations_in_this_family': len(items)})
+    nfam = {k: len(v) for k, v in nfam.items()}
     for r in results:
         if r['problems']:
             rep.finding(r.get('cls', 'unlisted'), {'kind': r['kind'], 'config': r['config'], 'what': r['problems'][:4]})
@@ -686,6 +779,21 @@ def run(rep):
             'deviations': {m['kind']: m['problems'][0][:160] for m in matrix if m['problems']},
             'table': {m['kind'].split(':', 1)[1]: m['verdict'] for m in matrix},
         },
+        'configuration_families': dict(fam_stat, **{
+            'rule': 'tools/conffam.py. (1) macro-name relations: groups of names related by prefix / extension / case, keywords, time units, the '
+                    'empty name; every non-empty subset defined, in every order, split between -D and the file in several ways; all used, or one '
+                    'more reference to a name of the group that is NOT defined (or ${}), redefinitions, -D overrides, unused, definitions after '
+                    'use, -D twice; in every string position of the grammar.  Oracle (manuals): a reference resolves iff a macro of exactly that '
+                    'name is defined before it; accepted files build the trees of the same file with the value of exactly that macro written in '
+                    'place.  (2) integer literals around 2^31, 2^32, 2^63, 2^64, k*2^64 + a valid age, 2^96, 2^128, 10^19, 10^20, 38 nines, 10^100, '
+                    'per-unit bounds, leading zeros x every unit abbreviation: accepted iff N x unit <= UINT32_MAX, age exactly N x unit; an integer '
+                    'anywhere else is a syntax error.  (3) path lists of maildir blocks: empty, one, several, duplicates, "/dev/stdin" in every '
+                    'position, x bodies without / with reject (top level, after a condition, later rule, nested) x a stdin or maildir block before / '
+                    'after: never a crash, reject in rules that apply to a real maildir rejects the file.  Every case also goes through M conf.',
+            'process_cases': len(famres), 'process_kinds': {k: sum(1 for r in famres if r['kind'].split(':')[1] == k) for k in sorted(set(r['kind'].split(':')[1] for r in famres))},
+            'process_deviations': nfam,
+            'process_path_lists_recorded': _recorded([(r['kind'].split(':', 1)[1], 'accepted' if r.get('accepted') else 'rejected') for r in famres if r['kind'].startswith('either:')]),
+        }),
         'correspondence_mismatches': len(corr_bad),
         'parser_requests': len(creqs), 'parser_accepted': conf_ok, 'parser_rejected': conf_err,
         'parser_distinct_diagnostic_lines': conf_lines, 'parser_inner_nodes_compared': conf_nodes,
@@ -706,7 +814,9 @@ def run(rep):
 
 def replay(rep, path):
     import json
-    print(json.dumps(json.load(open(path)), indent=1)[:3000])
+    j = json.load(open(path))
+    print(json.dumps(j, indent=1)[:3000])
     sc = vlib.Scratch()
     vlib.lean_gate(rep, 'C14', sc, [])
+    conffam.replay(j, sc)
     rep.coverage.update({'evaluations': 1, 'distinct_nontrivial': 1})
